@@ -87,11 +87,22 @@ def main(argv):
         if cls == 'c10-oracle:rename': rep['mode'] = 'rename'
         v.violation('implementation-level oracle: ' + what[:300], rep)
 
-    shard = 150 if tier == 'quick' else 400
+    shard = 150 if tier == 'quick' else 250
     mism = []
     if v.corr_ok and cases:
         imports = 'Open Scope Z_scope.\n' + ''.join('Definition %s : genv := %s.\n' % kv for kv in sorted(genv.items()))
         mism, errs = coq_eval_cases(PROP, IMPORTS, 'c10case', cases, shard=shard, imports=imports)
+        # a shard that produced no output at all was killed by its time limit (overloaded machine):
+        # evaluate its cases again in smaller pieces before calling it a failure
+        killed = [int(m.group(1)) for m in (re.match(r'shard (\d+): coqc failed:\s*$', e) for e in errs) if m]
+        if errs and len(killed) == len(errs):
+            errs = []
+            for k in killed:
+                lo = k * shard
+                m2, e2 = coq_eval_cases(PROP + 'r', IMPORTS, 'c10case', cases[lo:lo + shard], shard=max(25, shard // 8), imports=imports)
+                mism += [lo + i for i in m2]
+                errs += ['shard %d (retried): %s' % (k, x) for x in e2]
+            mism.sort()
         v.obligation('correspondence: model = implementation on %d scope trees (every identifier occurrence, diagnostics per class; vm_compute inside Coq)' % len(cases),
                      not mism and not errs, ('%d mismatches; ' % len(mism)) + '; '.join(errs)[:600] if (mism or errs) else '')
         for i in mism[:5]:
